@@ -323,7 +323,7 @@ pub fn run(run: &mut Run) {
     let seed = run.seed;
     let rc = run.replay_case();
     let xs = xgrid(thorough);
-    let n_random: u64 = if thorough { 1_000_000 } else { 20_000 };
+    let n_random: u64 = if thorough { 1_000_000 } else { 100_000 };
     run.extra.push(("x_grid_points".into(), J::U(xs.len() as u64)));
     run.parallel(|w, nw, acc| {
         if rc.is_none() {
